@@ -96,7 +96,16 @@ fn main() {
         base,
         profile: profile_name(),
     };
-    match h8verif::checks::dispatch(&id, &ctx) {
+    // a panic of the machinery itself (outside the guarded calls into the emulator) is exit 2, never a verdict
+    let r = std::panic::catch_unwind(std::panic::AssertUnwindSafe(|| h8verif::checks::dispatch(&id, &ctx)));
+    let r = match r {
+        Ok(r) => r,
+        Err(_) => {
+            eprintln!("HARNESS ERROR: {} did not complete (see above); this is not a verdict about the property", id);
+            std::process::exit(2);
+        }
+    };
+    match r {
         Some(code) => std::process::exit(code),
         None => {
             eprintln!("unknown property {}", id);
